@@ -17,7 +17,7 @@ RULE = ('row skeleton (exhaustive): renamed / same-name deprecation x same / dif
         'enforce_new_defaults on/off x new-name override absent/present x old-name override absent / arbitrary / alias '
         'rule:<new> x each override in the main file or in a policy directory x 1-3 new policies sharing the predecessor; '
         'per row several random (new default, old default, overrides) from the expression generator over 4 roles, '
-        'decided under all 16 role subsets; deprecated reason/since texts varied. Rows whose old-name override is textually '
+        'decided under all 16 role subsets; deprecated reason/since texts and the two warning-suppression knobs of the enforcer varied (they must not matter); in half of the cases the operator files are then rewritten (overrides added / removed / moved, main file deleted) and the SAME enforcer is re-checked against the table for the new files. Rows whose old-name override is textually '
         'the deprecated default are skipped (unconstrained by the statement). Non-trivial = a deprecated predecessor '
         'actually influences the row (override under the old name, or OR-ing with a different old default); distinct = distinct configuration.')
 ASSUMPTIONS = ['role leaves evaluate as C01/C04 state',
@@ -27,7 +27,7 @@ LEVEL_TEXT = ('The table of the statement is finite in its skeleton and enumerat
 LEVEL_NOTE = 'trusted: the reference implementation of the override table (20 lines) and the AST evaluator'
 PLAN = {'quick': dict(shards=4, wall=60), 'thorough': dict(shards=16, wall=400)}
 MIN = {'evaluations': 500, 'decisions': 10000, 'rows_old_override_governs': 50, 'rows_or_merge': 50,
-       'rows_new_override_governs': 50, 'rows_alias': 50}
+       'rows_new_override_governs': 50, 'rows_alias': 50, 'phase2_cases': 100}
 ANCHORS = ['oslo_policy.policy:Enforcer._handle_deprecated_rule', 'oslo_policy.policy:Enforcer._record_file_rules',
            'oslo_policy.policy:Enforcer.load_rules', 'oslo_policy.policy:Enforcer.enforce']
 REQUIRED_ANCHORS = ['oslo_policy.policy:Enforcer.enforce', 'oslo_policy.policy:Enforcer.load_rules']
@@ -69,6 +69,14 @@ def fill(rnd, row):
     case['old_override'] = gen_expr(rnd) if row['old_ov'] == 'arbitrary' else None
     case['main_exists'] = rnd.random() < 0.7
     case['reason'] = rnd.randrange(len(REASONS))
+    # knobs that only silence warnings - they must not influence a decision
+    case['suppress_default_change'] = rnd.random() < 0.3
+    case['suppress_deprecation'] = rnd.random() < 0.3
+    # a second configuration of the operator files, applied later to the SAME long-lived enforcer
+    if rnd.random() < 0.5:
+        case['phase2'] = dict(new_ov=rnd.random() < 0.4, old_ov=rnd.choice(['absent', 'absent', 'arbitrary', 'alias']) if row['renamed'] else 'absent',
+                              loc_new=rnd.choice(['main', 'dir']), loc_old=rnd.choice(['main', 'dir']),
+                              new_override=gen_expr(rnd), old_override=gen_expr(rnd), drop_main=rnd.random() < 0.2)
     return case
 
 
@@ -116,6 +124,10 @@ def check_case(ctx, case):
             tree.write('pd/x.yaml', dirf, 'yaml-lines')
         reason, since = REASONS[case['reason']]
         enf = policy.Enforcer(tree.conf(enforce_new_defaults=case['flag']))
+        if case.get('suppress_default_change'):
+            enf.suppress_default_change_warnings = True
+        if case.get('suppress_deprecation'):
+            enf.suppress_deprecation_warnings = True
         for i, nm in enumerate(newnames):
             dep = policy.DeprecatedRule(oldname if renamed else nm, olddef[1], deprecated_reason=reason or None,
                                         deprecated_since=since or None)
@@ -167,8 +179,59 @@ def check_case(ctx, case):
                         key = 'old-default-not-ored'
                     ctx.violation(key, case, {'policy': nm, 'roles': roles, 'expected': want, 'observed': got,
                                               'new_defaults': [d[1] for d in newdefs], 'old_default': olddef[1],
-                                              'files': {'main': main, 'dir': dirf}, 'enforce_new_defaults': case['flag']})
+                                              'files': {'main': main, 'dir': dirf}, 'enforce_new_defaults': case['flag'],
+                                              'warning_knobs': [case.get('suppress_default_change'), case.get('suppress_deprecation')]})
                     return
+        # ---- phase 2: the operator edits the files; the same enforcer must now follow the table for the NEW files ----
+        ph = case.get('phase2')
+        if ph:
+            ctx.count('phase2_cases')
+            p_new = untuple(ph['new_override']) if ph['new_ov'] else None
+            p_old = untuple(ph['old_override']) if ph['old_ov'] == 'arbitrary' else None
+            if p_old and p_old[1] == olddef[1]:
+                return
+            main2, dir2 = {}, {}
+            if p_new:
+                (main2 if ph['loc_new'] == 'main' else dir2)[newnames[0]] = p_new[1]
+            if renamed and ph['old_ov'] == 'arbitrary':
+                (main2 if ph['loc_old'] == 'main' else dir2)[oldname] = p_old[1]
+            if renamed and ph['old_ov'] == 'alias':
+                (main2 if ph['loc_old'] == 'main' else dir2)[oldname] = 'rule:' + newnames[0]
+            if ph['drop_main'] and not main2:
+                tree.delete('policy.yaml')
+            else:
+                tree.write('policy.yaml', main2, 'json')
+            if dir2:
+                tree.write('pd/x.yaml', dir2, 'yaml-lines')
+            else:
+                tree.delete('pd/x.yaml')
+
+            def effective2(i, truth):
+                if i == 0 and p_new:
+                    return expr.ev(p_new[0], truth)
+                if renamed and ph['old_ov'] == 'arbitrary':
+                    return expr.ev(p_old[0], truth)
+                if renamed and ph['old_ov'] == 'alias' and i > 0:
+                    return effective2(0, truth)
+                v = expr.ev(newdefs[i][0], truth)
+                if not case['flag'] and olddef[1] != newdefs[i][1]:
+                    v = v or expr.ev(olddef[0], truth)
+                return v
+            for i, nm in enumerate(newnames):
+                for roles in SUBSETS:
+                    truth = [r in roles for r in ROLES]
+                    want = effective2(i, truth)
+                    try:
+                        got = bool(enf.enforce(nm, {}, {'roles': list(roles)}))
+                    except Exception as e:
+                        got = 'EXC:' + type(e).__name__
+                    ctx.count('decisions')
+                    if got != want:
+                        ctx.violation('stale-merge-after-file-edit' if not isinstance(got, str) else 'enforce-raises', case,
+                                      {'policy': nm, 'roles': roles, 'expected': want, 'observed': got,
+                                       'files_before': {'main': main, 'dir': dirf}, 'files_now': {'main': main2, 'dir': dir2},
+                                       'main_deleted': bool(ph['drop_main'] and not main2)})
+                        return
     finally:
         tree.cleanup()
 
